@@ -275,6 +275,33 @@ def run(ctx):
             cases.append(run_history(ctx, ext_items, list(hist) + [1, 2], S, "extended-group"))
     except Exception as e:
         ctx.obligation("kernels in an extension of the tweezer group can be defined", False, f"{type(e).__name__}: {e}"[:200])
+    # closures that CAPTURE an argument of the call and RETURN a value (mapped over an index list, called directly), and a helper kernel
+    # called with equal arguments in calls whose captured values differ: nothing computed in one call may be served to the next
+    cap_src = ("@tweezer\ndef twice(v: float):\n    return 2.0 * v\n\n"
+               "@tweezer\ndef main(off: int, rows: ilist.IList[int, Any]):\n    assert off < 3, \"offset too large\"\n    def rel(r: int):\n        return r + off\n    def step(k: int):\n        return 0.5 * off * k\n"
+               "    ys = ilist.map(rel, rows)\n    g = grid.from_positions([0.0, 1.0], [0.0, 1.0, 2.0, 3.0, 4.0])\n    s = grid.sub_grid(g, [0, 1], ys)\n"
+               "    action.set_loc(s)\n    action.turn_on(action.ALL, action.ALL)\n    action.move(grid.shift(s, twice(0.25), step(1)))\n    action.move(grid.shift(s, 0.0, step(2) + twice(1.0)))\n")
+    cap_items = [Item("capture off=+2", cap_src, (2, ilist.IList([0, 1])), S), Item("capture off=+1", cap_src, (1, ilist.IList([0, 1])), S),
+                 Item("capture off=-2", cap_src, (-2, ilist.IList([2, 3])), S), Item("capture off=+3 (index out of range)", cap_src, (3, ilist.IList([0, 2])), S), fixed[0]]
+    for it in cap_items[:4]:
+        ctx.hist("capturing_closure_item_outcome", f"{it.name}: {'path' if it.fresh is not None else 'raises ' + str(it.fresh_error)}")
+    if any(it.fresh is None for it in cap_items[:3]) or cap_items[3].fresh is not None:
+        ctx.obligation("the capturing-closure kernels trace (and the out-of-range one fails) on a fresh instance", False, str([(it.name, it.fresh_error) for it in cap_items]))
+    for hist in itertools.permutations(range(len(cap_items)), 3):
+        cases.append(run_history(ctx, cap_items, list(hist) + [hist[0]], S, "capturing-closures"))
+    # a lookup of a name the spec does not have, in a branch that only some calls execute (directly and inside a helper kernel): the call
+    # that executes it fails, the call that does not succeeds - whichever came first, and however often each was made
+    miss_src = ("@tweezer\ndef fallback():\n    return spec.get_static_trap(zone_id=\"no_such_zone\")\n\n"
+                "@tweezer\ndef main(c: int, x: float):\n    g = grid.from_positions([x], [0.0])\n    if c == 1:\n        g = spec.get_static_trap(zone_id=\"not_a_zone\")[0:1, 0:1]\n"
+                "    if c == 2:\n        g = fallback()[0:1, 0:1]\n    action.set_loc(g)\n    action.move(grid.shift(g, 1.0, 0.0))\n")
+    miss_items = [Item("branch not taken", miss_src, (0, 0.5), S), Item("missing zone looked up", miss_src, (1, 0.5), S),
+                  Item("missing zone looked up in a helper", miss_src, (2, 0.5), S), Item("branch not taken, other x", miss_src, (0, 1.5), S)]
+    for it in miss_items:
+        ctx.hist("missing_entry_item_outcome", f"{it.name}: {'path' if it.fresh is not None else 'raises ' + str(it.fresh_error)}")
+    if miss_items[0].fresh is None or miss_items[1].fresh is not None or miss_items[2].fresh is not None:
+        ctx.obligation("the missing-entry kernel fails exactly in the calls that execute the lookup, on a fresh instance", False, str([(it.name, it.fresh_error) for it in miss_items]))
+    for hist in itertools.product(range(len(miss_items)), repeat=3):
+        cases.append(run_history(ctx, miss_items, list(hist) + [0, 1], S, "missing-entry-in-a-branch"))
     typed_pool = typed + [fixed[3], fixed[4]]
     for n in (2, 3):
         for hist in itertools.permutations(range(len(typed_pool)), n):
